@@ -32,6 +32,11 @@ func (d *Data) Bytes() []byte {
 	b := make([]byte, d.Len)
 	switch d.Kind {
 	case "zeros":
+	case "hash": // '#' bytes without the marker: differs from the head of every other content
+		for i := range b {
+			b[i] = '#'
+		}
+		return b
 	case "text":
 		line := fmt.Sprintf("line %08x the quick brown fox jumps over the lazy dog\n", d.Tag)
 		for i := range b {
